@@ -125,6 +125,12 @@ def _pow(a, b):
     return _chk(a ** b)
 
 
+def _nonneg(a):
+    if a < 0:
+        raise Panic("conversion between int and nat out of range")
+    return a
+
+
 def _fdiv(a, b):
     if b == 0:
         raise Overflow()      # (HUGR gives inf / nan, Python raises: outside the compared behaviour)
@@ -137,6 +143,10 @@ OPS = {
     "arithmetic.int.idiv_s": _div, "arithmetic.int.imod_s": _mod, "arithmetic.int.idivmod_s": lambda a, b: (_div(a, b), _mod(a, b)),
     "arithmetic.int.ieq": lambda a, b: a == b, "arithmetic.int.ine": lambda a, b: a != b,
     "arithmetic.int.ilt_s": lambda a, b: a < b, "arithmetic.int.ile_s": lambda a, b: a <= b, "arithmetic.int.igt_s": lambda a, b: a > b, "arithmetic.int.ige_s": lambda a, b: a >= b,
+    # unsigned views (nat): the operands are read modulo 2^64
+    "arithmetic.int.ilt_u": lambda a, b: (a % M) < (b % M), "arithmetic.int.ile_u": lambda a, b: (a % M) <= (b % M),
+    "arithmetic.int.igt_u": lambda a, b: (a % M) > (b % M), "arithmetic.int.ige_u": lambda a, b: (a % M) >= (b % M),
+    "arithmetic.int.is_to_u": lambda a: _nonneg(a), "arithmetic.int.iu_to_s": lambda a: _nonneg(a),
     "arithmetic.int.iand": lambda a, b: a & b, "arithmetic.int.ior": lambda a, b: a | b, "arithmetic.int.ixor": lambda a, b: a ^ b, "arithmetic.int.inot": lambda a: ~a,
     "arithmetic.int.ishl": _shl, "arithmetic.int.ishr": _shr, "arithmetic.int.ipow": _pow,
     # floats: Python's float is binary64, as is HUGR's float64
